@@ -494,13 +494,13 @@ struct NullExporter : sdk::SpanExporter {
 constexpr int kTracerSamplers = 7;
 std::unique_ptr<sdk::Sampler> tracer_sampler(int i, double ratio, std::string *name) {
   switch (i) {
-    case 0: *name = "Ratio(" + rname(ratio) + ")"; return std::unique_ptr<sdk::Sampler>(new sdk::TraceIdRatioBasedSampler(ratio));
-    case 1: *name = "ParentBased{Ratio(" + rname(ratio) + ")}"; return std::unique_ptr<sdk::Sampler>(new sdk::ParentBasedSampler(std::make_shared<sdk::TraceIdRatioBasedSampler>(ratio)));
-    case 2: *name = "AlwaysOn"; return std::unique_ptr<sdk::Sampler>(new sdk::AlwaysOnSampler());
-    case 3: *name = "AlwaysOff"; return std::unique_ptr<sdk::Sampler>(new sdk::AlwaysOffSampler());
-    case 4: *name = "ParentBased{AlwaysOff}"; return std::unique_ptr<sdk::Sampler>(new sdk::ParentBasedSampler(std::make_shared<sdk::AlwaysOffSampler>()));
-    case 5: *name = "ParentBased{AlwaysOn}"; return std::unique_ptr<sdk::Sampler>(new sdk::ParentBasedSampler(std::make_shared<sdk::AlwaysOnSampler>()));
-    default: *name = "Ratio(0.5)"; return std::unique_ptr<sdk::Sampler>(new sdk::TraceIdRatioBasedSampler(0.5));
+    case 0: *name = "AlwaysOff"; return std::unique_ptr<sdk::Sampler>(new sdk::AlwaysOffSampler());
+    case 1: *name = "AlwaysOn"; return std::unique_ptr<sdk::Sampler>(new sdk::AlwaysOnSampler());
+    case 2: *name = "ParentBased{AlwaysOff}"; return std::unique_ptr<sdk::Sampler>(new sdk::ParentBasedSampler(std::make_shared<sdk::AlwaysOffSampler>()));
+    case 3: *name = "ParentBased{AlwaysOn}"; return std::unique_ptr<sdk::Sampler>(new sdk::ParentBasedSampler(std::make_shared<sdk::AlwaysOnSampler>()));
+    case 4: *name = "Ratio(0.5)"; return std::unique_ptr<sdk::Sampler>(new sdk::TraceIdRatioBasedSampler(0.5));
+    case 5: *name = "Ratio(" + rname(ratio) + ")"; return std::unique_ptr<sdk::Sampler>(new sdk::TraceIdRatioBasedSampler(ratio));
+    default: *name = "ParentBased{Ratio(" + rname(ratio) + ")}"; return std::unique_ptr<sdk::Sampler>(new sdk::ParentBasedSampler(std::make_shared<sdk::TraceIdRatioBasedSampler>(ratio)));
   }
 }
 
@@ -511,7 +511,7 @@ void run_tracer(vf::Ctx &c) {
     for (size_t i = 0; i < g_ratios.size(); ++i) if (g_boundary_of_ratio[i] >= 0) interior.push_back((int)i);
   int si = c.pick("sampler", kTracerSamplers);
   // (no interior boundary at all can only happen on a broken sampler: fall back to the fixed ids)
-  int ri = (si <= 1 && !interior.empty()) ? interior[c.pick("ratio", (int)interior.size())] : -1;
+  int ri = (si >= 5 && !interior.empty()) ? interior[c.pick("ratio", (int)interior.size())] : -1;
   int pcode = c.pick("parent", kParents);
   double ratio = ri >= 0 ? g_ratios[ri] : 0.5;
   c.stage("tracer.setup");
